@@ -7,7 +7,10 @@ carries the environment's answers (every vector of advance/stay draws for
 v <= 3), in a configuration whose probabilistic range starts after 3 adds and
 in the default configuration.  Plus, on one-cell log sketches: every start value of
 the reserved range x bulk adds ending at or below num_reserved+1 under worst-case
-draws, and bulk adds with multiplicities 65536 .. 2^40.
+draws, and bulk adds with multiplicities 65536 .. 2^40.  On one-key linear
+sketches: every boundary multiplicity (0 .. 2^64-1) x start count x entry point
+(add, update(dict), list, tuple, iterator) x integer type (int, numpy uint64 /
+int64 / uint32).
 """
 from . import c01
 from . import cm_common as C
@@ -69,6 +72,9 @@ def run(rep):
     from . import c06
 
     n = c06.reserved_bulk(rep) + c06.huge_multiplicities(rep)
+    # linear sketches: every boundary multiplicity x start count x entry point x integer type on
+    # a one-key sketch (estimate exactly min(old + v, 2^32-1)); shared with C01
+    n += c01.boundary_sweep(rep)
     rep.evals(n)
     rep.add("transitions", n)
     rep.add("traces_validated_against_impl", n)
@@ -82,6 +88,8 @@ def run(rep):
 
 
 def replay(case):
+    if case.get("part") in ("boundary", "boundary_ngram"):
+        return c01.replay(case)
     if case.get("part") in ("bulk", "huge"):
         from . import c06
 
